@@ -16,7 +16,7 @@ for pid in ids:
     checks.append({
         "property_id": pid,
         "quick_cmd": "./check %s --tier quick" % pid,
-        "thorough_cmd": "./check %s --tier thorough" % pid,
+        "thorough_cmd": r.get("thorough_cmd", "./check %s --tier thorough" % pid),
         "evidence_file": "/verif/evidence/%s.json" % pid,
         "replay_cmd_template": "./check %s --replay {path}" % pid,
         "engine": "tlc+verifdrv",
